@@ -450,3 +450,38 @@ Lemma c20_roles_opaque d gl ki fg bg ul :
                                    None
             end].
 Proof. intros Hf Hb Hu _ _ _. apply c20_roles; assumption. Qed.
+
+(* ---------- a failing writer: what reaches the output, and what the encoder keeps ---------- *)
+Theorem encode_stw_spec pal256 gray4 cp s c b :
+  exists e ok s' b' bs,
+    encode_stw pal256 gray4 cp s c b = Ok (e, ok, s', b') /\
+    encode pal256 gray4 cp c = Ok bs /\
+    e = delivered b bs /\ ok = accepts b (length bs).
+Proof.
+  destruct (encode_some pal256 gray4 cp c) as [bs E].
+  destruct c; cbn [encode_stw]; try (rewrite E; cbn [bind]; do 5 eexists; repeat split; reflexivity).
+  - (* Face *) cbn [encode] in E. injection E as <-. unfold sgr_w. cbn [chunks_clear app].
+    do 5 eexists. repeat split; reflexivity.
+  - (* FaceModify *) clear E. cbn [chunks_clear app encode]. unfold sgr_w. cbn [chunks_clear app].
+    destruct (fm_chunks pal256 gray4 (cp_depth cp) m) eqn:F.
+    + exists [], true, [], b, []. repeat split; destruct b as [[|k]|]; reflexivity.
+    + do 5 eexists. repeat split; reflexivity.
+Qed.
+
+(* after a call on a failing writer -- whatever it left in the scratch buffer -- every later command
+   on this encoder object encodes exactly as on a fresh encoder *)
+Lemma c05_failed_write_harmless_thm :
+  forall (pal256 gray4 : rgba -> N) (cp : caps) (s : enc_state) (c : cmd) (b : budget),
+  exists e ok s' b' bs,
+    encode_stw pal256 gray4 cp s c b = Ok (e, ok, s', b') /\
+    encode pal256 gray4 cp c = Ok bs /\
+    e = delivered b bs /\ ok = accepts b (length bs) /\
+    forall later : list cmd,
+      exists out s'', encode_stream_st pal256 gray4 cp s' later = Ok (out, s'') /\
+                      encode_stream pal256 gray4 cp later = Ok out.
+Proof.
+  intros pal gray cp s c b.
+  destruct (encode_stw_spec pal gray cp s c b) as (e & ok & s' & b' & bs & E1 & E2 & E3 & E4).
+  exists e, ok, s', b', bs. repeat split; try assumption.
+  intros later. apply encode_stream_st_concat.
+Qed.
